@@ -544,6 +544,17 @@ func genC20(e *emitter, r *rng, thorough bool) {
 			e.emit("new.raw-random-high-bytes", "env.new "+hx(x)+" "+tape)
 		}
 	}
+	// payloads json.Marshal refuses (an error — and no trace may be left for the envelopes made afterwards), each
+	// followed by ordinary ones
+	for i, badpl := range []string{"{", "{\"a\":}", "nul", "[1,2", "\"unterminated", "{\"a\":1}}", ""} {
+		tape := runWithGenTape(r, -1, func() { _, _ = envelope.NewJSONEnvelope(json.RawMessage(badpl)) })
+		e.emit("new.unmarshalable", "env.new.bad "+hx([]byte(badpl))+" "+tape)
+		for j := 0; j < 2; j++ {
+			pl, _ := json.Marshal(map[string]int{"after": i*10 + j})
+			tape := runWithGenTape(r, -1, func() { _, _ = envelope.NewJSONEnvelope(json.RawMessage(pl)) })
+			e.emit("new.after-failure", "env.new "+hx(pl)+" "+tape)
+		}
+	}
 	// the D10 witness
 	{
 		pl, _ := json.Marshal(map[string]string{"a": `he said "hi"`})
@@ -664,6 +675,9 @@ func genC20(e *emitter, r *rng, thorough bool) {
 				e.emit(class, fmt.Sprintf("env.valid %s %s %s %s", hx([]byte(p)), sf, kf, hx([]byte(m))))
 			}
 			ev("valid."+mime, payload, sigHex, pkHex, mime)
+			for _, enc := range []string{"UTF-8", "base64", "BASE64", "Base64", "", "utf-8", "hex"} {
+				e.emit("valid.encoding-field", fmt.Sprintf("env.valid %s %s %s %s %s", hx([]byte(payload)), hx([]byte(sigHex)), hx([]byte(pkHex)), hx([]byte(mime)), hx([]byte(enc))))
+			}
 			ev("nil.both", payload, "\x00nil", "\x00nil", mime)
 			ev("nil.sig", payload, "\x00nil", pkHex, mime)
 			ev("nil.key", payload, sigHex, "\x00nil", mime)
